@@ -269,6 +269,9 @@ def run(chk: Check, ctx: Any) -> None:
                     chk.unknown("C17-R3", key, fake, f"bygroups arguments not recognised: {norm(act)}", node=r["node"])
             elif isinstance(act, ast.Call) and dotted(act.func) in ("using", "default", "this"):
                 chk.unknown("C17-R3", key, fake, f"callback action {norm(act)}: emitted text not established", node=r["node"])
+            elif (dcb := dotted(act)) and (rcb := repo.resolve(mod, dcb)) is not None and rcb[0] == "func":
+                chk.hold("C17-R3", key, fake, f"callback action {dcb}(): what it emits for a match is decided by C17-R6, which interprets it on the sample texts",
+                         node=r["node"])
             else:
                 chk.unknown("C17-R3", key, fake, f"action {norm(act)} is not a recognised pygments token type", node=r["node"])
             # R4 (#pop in a state that is never pushed)
@@ -308,17 +311,23 @@ def _sample_rule(chk: Check, ctx: Any, mod: Any, cls: Any, fake: Any, rules_by_s
     repo = ctx.repo
     # ---- the table in executable form
     table: dict[str, list[dict[str, Any]]] = {}
+    callbacks: list[str] = []
     for st, rs in rules_by_state.items():
         table[st] = []
         for r in rs:
             act = r["action"]
             d = dotted(act)
             emit: list[tuple[int, Any]] | None = None
+            callback: Any = None
             if d:
                 res = repo.resolve(mod, d)
                 tt = lexrun.token_type(str(res[1])) if res is not None and res[0] == "external" else None
                 if tt is not None:
                     emit = [(0, tt)]
+                elif res is not None and res[0] == "func":
+                    callback = res[1]  # a function of the repository used as rule action: interpreted for every match
+                    emit = []
+                    callbacks.append(d)
             elif isinstance(act, ast.Call) and dotted(act.func) == "bygroups" and not act.keywords:
                 emit = []
                 for i, a in enumerate(act.args):
@@ -338,7 +347,7 @@ def _sample_rule(chk: Check, ctx: Any, mod: Any, cls: Any, fake: Any, rules_by_s
                 crx = re.compile(r["pattern"], flags)
             except re.error:
                 return  # reported by R1
-            table[st].append({"rx": crx, "emit": emit, "new": r["new"], "pattern": r["pattern"]})
+            table[st].append({"rx": crx, "emit": emit, "new": r["new"], "pattern": r["pattern"], "callback": callback})
     # ---- the class's own driver
     override = None
     for name, fn in cls.methods.items():
@@ -348,18 +357,31 @@ def _sample_rule(chk: Check, ctx: Any, mod: Any, cls: Any, fake: Any, rules_by_s
             chk.unknown(rule, f"driver:{name}", fake, f"the lexer class overrides {name}(), a part of the pygments driver this rule does not model", node=fn)
             return
     interp = None
-    if override is not None:
+    if override is not None or callbacks:
         interp = Interp(repo, ctx.fold, max_steps=3_000_000)
         for nm, path in lexrun.STANDARD.items():
             interp.native_consts["pygments.token." + nm] = lexrun.TokType.get(path)
+    me = AObj(cls)
+
+    def call_cb(fn: Any, m: Any) -> list[tuple[int, Any, str]]:
+        """`yield from action(self, m)` of the driver loop: the callback of the repository is interpreted on the match object"""
+        assert interp is not None
+        out = interp.call_func(fn, [me, m] if True else [], {})
+        res = []
+        for t in interp.iterate(out):
+            if not (isinstance(t, tuple) and len(t) == 3 and isinstance(t[0], int) and isinstance(t[2], str)):
+                raise Unsupported(f"the callback {fn.qual} yields something other than (index, token type, text)")
+            res.append(t)
+        return res
 
     def run_on(text: str) -> list[tuple[int, Any, str]]:
         if override is None:
-            return lexrun.lex(table, flags, text)
+            if interp is not None:
+                interp.steps = 0
+            return lexrun.lex(table, flags, text, call_cb=call_cb)
         assert interp is not None
         interp.steps = 0
-        interp.natives["super.get_tokens_unprocessed"] = lambda selfv, t, stack=("root",): lexrun.lex(table, flags, t, tuple(stack))
-        me = AObj(cls)
+        interp.natives["super.get_tokens_unprocessed"] = lambda selfv, t, stack=("root",): lexrun.lex(table, flags, t, tuple(stack), call_cb=call_cb)
         out = interp.call_func(override, [me, text], {})
         toks = list(interp.iterate(out))
         res = []
@@ -406,3 +428,4 @@ def _sample_rule(chk: Check, ctx: Any, mod: Any, cls: Any, fake: Any, rules_by_s
                 chk.hold(rule, key, fake, f"{len(toks)} tokens, texts concatenate to the input" + (", no Error token" if kind == "accepted" else ""))
     chk.floor(rule, "sample texts lexed", n, 30)
     chk.extra["driver_override"] = override is not None
+    chk.extra["callback_actions"] = sorted(set(callbacks))
